@@ -542,7 +542,7 @@ pub fn run_c34(tier: Tier, seed: u64) -> i32 {
         "in-process nodes (HTTP + Arrow Flight on loopback) over generated Parquet catalogs, single node and 2-3 node clusters; statements of all distributed shapes plus results of more than 4096 rows, empty results and failing statements, in modes auto/force/off: GetFlightInfo then DoGet on the returned ticket must give the schema and rows of POST /sql?format=arrow with the same mode (sequence under a total ORDER BY with LIMIT, multiset otherwise), GetFlightInfo's schema must equal the streamed schema, both doors must take the same distribution decision (trailer `distributed` vs x-qe-distributed) and the trailer's row count must equal the rows streamed; a statement one door refuses the other must refuse. Tickets that are not JSON, carry another version, an unknown mode, no sql, or exceed 1 MiB must be refused. distinct = distinct (statement skeleton, mode, cluster size, result-size class)",
     );
     let scratch = Scratch::new("c34");
-    let rounds = tier.pick(3usize, 20);
+    let rounds = tier.pick(3usize, 10);
     let per_round = tier.pick(36usize, 120);
     let sp = scratch.path().to_path_buf();
     let result: Result<(), String> = rt().block_on(async {
